@@ -272,6 +272,21 @@ func c11Run(c *mon.Ctx) {
 				for _, n := range nodes {
 					c11Tree(c, "constructors", n, n.Build(nil))
 				}
+				// the closed ring as a document, parsed under the representation options
+				if L >= 3 {
+					ring := nPoly(append(append([]geometry.Point{}, ps...), ps[0]))
+					for oi, po := range []geojson.ParseOptions{{AllowRects: true, IndexGeometry: 64, IndexChildren: 64}, {AllowRects: true, AllowSimplePoints: true, IndexGeometry: 1, IndexGeometryKind: geometry.RTree}} {
+						for _, n := range []*Node{ring, nFeature(ring), nMulti("GeometryCollection", ring, nPoint(ps[0]))} {
+							po := po
+							obj, err := geojson.Parse(n.JSON(), &po)
+							if err != nil {
+								continue
+							}
+							c.Count("parsed_under_representation_options")
+							c11Tree(c, fmt.Sprintf("parse(AllowRects, set %d)", oi), n, obj)
+						}
+					}
+				}
 				c.NonTrivial(uint64(mon.NewH().I(int64(L)).I(int64(code))))
 			})
 			if code%7001 == 3 && c.WantSample() {
@@ -302,7 +317,11 @@ func c11Run(c *mon.Ctx) {
 			c11Tree(c, "constructors", root, root.Build(ic))
 			if root.Parseable() {
 				txt := root.JSON()
-				obj, err := geojson.Parse(txt, nil)
+				var po *geojson.ParseOptions
+				if i%3 == 1 {
+					po = &geojson.ParseOptions{AllowRects: true, AllowSimplePoints: i%2 == 0, IndexGeometry: 64, IndexChildren: 1 + i%64, IndexGeometryKind: geometry.IndexKind(i % 3)}
+				}
+				obj, err := geojson.Parse(txt, po)
 				if err != nil {
 					c.Violation("parse", "model text rejected: "+err.Error(), map[string]interface{}{"text": txt})
 					return
@@ -325,7 +344,7 @@ func c11Run(c *mon.Ctx) {
 }
 
 func init() {
-	must := []string{"exhaustive_done", "parsed_objects", "empty_objects", "invalid_objects"}
+	must := []string{"parsed_under_representation_options", "exhaustive_done", "parsed_objects", "empty_objects", "invalid_objects"}
 	for _, k := range allKinds {
 		must = append(must, "kind_"+k)
 	}
